@@ -433,6 +433,33 @@ func (x *Exec) zzverifEnv(name string, c *CallCtx) (Value, bool) {
 	case "OrmWritten":
 		// OrmWritten(table, i, pre, post) -> (preExists, postExists) of the i-th write's key
 		x.Unsupported("OrmWritten")
+	case "AllWritten2":
+		// AllWritten2(table, f(pre *T, preExists bool, post *T, postExists bool) bool):
+		// conjunction over the distinct written keys
+		ts := e.tableByName(x, x.constStr(a[0], "table name"))
+		f, ok := unwrapIface(a[1]).(FuncV)
+		if !ok {
+			x.Unsupported("AllWritten2 needs a function")
+		}
+		n0, n1 := x.snapLen(ts), len(ts.Log)
+		all := B.True
+		for _, le := range ts.Log[n0:] {
+			k := le.PK
+			pre := x.newObj(ts.rowValue(x, ts.rowLeavesAt(x, k, n0)), ts.Meta.Name+"@pre")
+			post := x.newObj(ts.rowValue(x, ts.rowLeavesAt(x, k, n1)), ts.Meta.Name+"@post")
+			r := x.invokeValue(f, []Value{PtrV{Obj: pre}, BoolV{ts.existsAt(x, k, n0)}, PtrV{Obj: post}, BoolV{ts.existsAt(x, k, n1)}}, nil)
+			all = B.And(all, r.(BoolV).T)
+		}
+		return BoolV{all}, true
+	case "OrmDeletes":
+		ts := e.tableByName(x, x.constStr(a[0], "table name"))
+		n := 0
+		for _, le := range ts.Log[x.snapLen(ts):] {
+			if !le.Exists {
+				n++
+			}
+		}
+		return IntV{B.Int(int64(n))}, true
 	case "SumDelta", "SumTouched0", "AllWritten", "AllTouched0":
 		ts := e.tableByName(x, x.constStr(a[0], "table name"))
 		f, ok := unwrapIface(a[1]).(FuncV)
@@ -688,6 +715,7 @@ func (x *Exec) strToSdkInt(s StrV) Value {
 	}
 	x.AssumeLocal(x.decIsIntLiteral(s.Atom), "stored integer amounts are integer literals")
 	neg, mag := x.decAtomParts(s.Atom)
+	x.linkMag(mag)
 	t := B.Ite(neg, B.Neg(B.Floor(mag)), B.Floor(mag))
 	// the customtype's Unmarshal also rejects integers wider than 256 bits
 	x.AssumeLocal(B.And(B.Le(B.BigInt(new(big.Int).Neg(max256)), t), B.Le(t, B.BigInt(max256))), "stored integer amounts fit 256 bits")
